@@ -11,7 +11,7 @@ def run():
     n_shards = 12 if thorough else 8
     per = 5000 if thorough else 450
     termlib.mc_slices(c, thorough)
-    shards, n_w = termlib.witness_cases(c, 4, "all" if False else (3 if thorough else 1), c.seed, max_cases=400000 if thorough else 60000)
+    shards, n_w = termlib.witness_cases(c, 12 if thorough else 4, 3 if thorough else 1, c.seed, max_cases=150000 if thorough else 60000)
     c.extra["witness_cases"] = n_w
     for i in range(n_shards):
         args = ["--gen", per, "--gen-from", 1_000_000 + i * per, "--seed", c.seed]
@@ -24,7 +24,7 @@ def run():
     c.extra["cases"] = sum(int(r.get("r4", 0)) for r in c.reports)
     c.extra["distinct_nontrivial"] = c.extra["cases"]
     c.extra["model_steps"] = sum(int(r.get("r7", 0)) for r in c.reports)
-    c.rule = ("R1: MC_Term explores Term.tla exhaustively (all token sequences up to depth 3/4 over five token slices on a 2x2 screen; invariants InScreen, Sane). R2: one TLC witness per coarse class of model states, extended by alphabet tokens, replayed into the real emulations with full cell projection; plus: after every character of every stream (until a text-area resize request) the recorded caret must satisfy 0 <= x < width and first <= y < first + height with "
+    c.rule = ("R1: MC_Term explores Term.tla exhaustively (all token sequences up to depth 3/4 over ten token slices on a 2x2 screen; invariants InScreen, Sane). R2: one TLC witness per coarse class of model states, extended by alphabet tokens, replayed into the real emulations with full cell projection; plus: after every character of every stream (until a text-area resize request) the recorded caret must satisfy 0 <= x < width and first <= y < first + height with "
               "first = max(0, buffer height - height); Viewdata / Mode 7 additionally keep buffer size 40x24. Streams as for C01. distinct_nontrivial = number of cases.")
     c.assumptions = ["the geometry is read through the public API after each character (Caret::get_position, Buffer::get_size, TerminalState::get_width/height)"]
     return c.finish()
